@@ -44,7 +44,7 @@ P['C13'] = {
     'assumptions': ['find_right_crc contract trusted; spec_crc / spec_byte are tied to calc_crc / bits2byte only through the Kani group', 'chunk independence of HdlcDeframer (C08) is not claimed: the automaton state is carried in self.state and work() applies update_state bit by bit, but no mirror function of the whole automaton is proved'],
 }
 P['C14'] = {
-    'units': ['kani:codecs', 'fsrc', 'tcp', 'au', 'bx:auenc'],
+    'units': ['kani:codecs', 'fsrc', 'tcp', 'au', 'sigmf', 'bx:auenc'],
     'technique': 'Kani/CBMC loop-free full-domain proofs of Sample::{serialize,parse,size} for u8,u32,i32,f32,Complex',
     'level_text': 'Codecs + file source: FileSource::work reassembles exactly the file\'s samples for EVERY segmentation of the byte stream (read() may return any 1..=len bytes, incl. splits inside a sample), repeated `count` times (Verus, stream + reader contract). parse(serialize(x)) is bit-identical to x for every bit pattern (NaN payloads included), serialize(x).len() == size(), parse never errs on size() bytes and serialize(parse(d)) == d for every byte pattern; Complex wire order I then Q, little endian. TcpSource::work likewise for a socket. AuDecode::work: header state machine, then exactly one sample per two payload bytes (no extra or missing samples). SigMF, AuEncode and the sink-then-source file round trip are NOT decided.',
     'level_note': 'Loop-free harnesses over the full input domain are complete proofs. FileSource, TcpSource, SigMFSource, AuEncode/AuDecode use BufReader, sockets, tar, serde_json and iterator chains: outside Verus\' subset; Kani cannot run streams.',
@@ -52,7 +52,7 @@ P['C14'] = {
 }
 
 P['C16'] = {
-    'units': ['repeat', 'vsrc', 'fsrc', 'kani:repeat'],
+    'units': ['repeat', 'vsrc', 'fsrc', 'sigmf', 'kani:repeat'],
     'technique': 'Verus contracts on Repeat::{finite,infinite,again,done,count} and a history invariant on VectorSource::work over the stream contract; Kani cross-check of Repeat on the compiled code',
     'level_text': 'Deductive proof, no bound: the repeat counter has no precondition on call order and never under/overflows (count < 2^64-1 assumed); VectorSource::work preserves produced == data^count ++ data[..pos] with marker tags exactly once per repetition on its first sample, returns EOF exactly when data^N has been emitted and never for an infinite repeat, for every data length and every write-window length (all consumer schedules). FileSource::work likewise (count whole passes of the file, EOF only when all are out, never for infinite, honours repeat 0). The SigMF source is NOT decided.',
     'level_note': 'Trusted: the stream-API contract of units/stream_prelude.vx (abstracts stream.rs + circular_buffer.rs; Buffer-level facts proved in unit ring), vec!/Vec (vstd), subslice shim. FileSource and SigMFSource (BufReader, tar, serde_json, iterator chains) are outside Verus\' subset.',
@@ -79,7 +79,7 @@ P['C08'] = {
     'not_covered': _NOT_COVERED_BLOCKS, 'assumptions': _BLOCK_ASSUME,
 }
 P['C09'] = {
-    'units': list(_BU) + _FIR + ['zc', 'hdlc', 'fsrc', 'fsink', 'tcp', 'au', 'bx:sync', 'bx:dsp'],
+    'units': list(_BU) + _FIR + ['zc', 'sigmf', 'hdlc', 'fsrc', 'fsink', 'tcp', 'au', 'bx:sync', 'bx:dsp'],
     'technique': 'Verus: call-site preconditions of consume/produce (n <= window, window belongs to the stream, not stale) and verdict postconditions on each covered work()',
     'level_text': 'Deductive proof for the same subset: every consume/produce call site stays within its window; WaitForStream(s, need) is returned only when stream s offered fewer than need in this call; Again only from a call that consumed or produced; an empty input window yields a wait on the input. No window escapes work() (windows are moved into consume/produce or dropped; checked syntactically by rule X-WIN).',
     'level_note': 'Subset only. "holds no window after return" is a syntactic check of the extractor, stated as such.',
@@ -100,7 +100,7 @@ P['C12'] = {
     'not_covered': _NOT_COVERED_BLOCKS + ['FirFilter / FftFilter / Hilbert tag forwarding'], 'assumptions': _BLOCK_ASSUME,
 }
 P['C15'] = {
-    'units': ['skip', 'delay', 'v2s', 'fir', 'resampler', 'rtlsdr', 's2pdu', 'hilbert', 'fftstream', 'zc', 'hdlc', 'tcp', 'au', 'kani:lfsr', 'kani:hdlc', 'kani:codecs', 'bx:dsp'],
+    'units': ['skip', 'delay', 'v2s', 'fir', 'resampler', 'rtlsdr', 's2pdu', 'hilbert', 'fftstream', 'zc', 'sigmf', 'hdlc', 'tcp', 'au', 'kani:lfsr', 'kani:hdlc', 'kani:codecs', 'bx:dsp'],
     'technique': 'Verus panic-freedom obligations (refuse/overflow/bounds/callee preconditions unreachable for arbitrary sample values) + Kani totality harnesses over all input bytes',
     'level_text': 'Deductive proof for a stated subset: in the covered work() bodies no panic site is reachable for any sample values; bits2byte, calc_crc (lengths 1..2, thorough ..4) and the codecs\' parse never panic for any byte values; the two LFSR steps are checked for every input byte.',
     'level_note': 'Subset only: AuDecode header arithmetic, HdlcDeframer::update_state, wpcr, sigmf, StreamToPdu, symbol sync, zero crossing are not decided.',
